@@ -193,7 +193,7 @@ Print Assumptions C17_external_cache_is_used.
 Theorem C17_identity_separate_repositories_refuted :
   exists fs mc ms f m s' repos' x n t i,
     ml_load fs mc f ms = (inr m, (s', repos')) /\ In x (included m s') /\
-    resolve_name (mkCfg true false []) s' x n = Some (t, i) /\ t <> x /\ dget (file_of t s') (allm s') <> Some t.
+    resolve_name (mkCfg true false [] false) s' x n = Some (t, i) /\ t <> x /\ dget (file_of t s') (allm s') <> Some t.
 Proof.
   set (fs := [mkFile [[1]] [100%N] [101%N] false false false; mkFile [[0]] [101%N] [100%N] false false false]).
   set (mc := mkML [true; true] [0; 1]).
@@ -209,7 +209,7 @@ Print Assumptions C17_identity_separate_repositories_refuted.
    wherever that model came from (parsed now, cached in the importer's repository, taken from another language's). *)
 Theorem C17_identity_several_languages : forall fs mc f s repos m s' repos' y n t i,
   MStable (s, repos) -> ml_load fs mc f (s, repos) = (inr m, (s', repos')) ->
-  length (heap s) <= y -> resolve_name (mkCfg (lglob mc (lang mc f)) false []) s' y n = Some (t, i) ->
+  length (heap s) <= y -> resolve_name (mkCfg (lglob mc (lang mc f)) false [] false) s' y n = Some (t, i) ->
   t = y \/ dget (file_of t s') (allm s') = Some t.
 Proof. exact ml_identity_created. Qed.
 Print Assumptions C17_identity_several_languages.
@@ -246,10 +246,40 @@ Example C17_identity_several_languages_witness :
   let ms := snd (ml_load fs mc 1 (init_state [], [])) in
   let r := ml_load fs mc 0 ms in
   MStable ms /\ fst r = inr 1 /\ length (heap (fst ms)) = 1 /\
-  resolve_name (mkCfg true false []) (fst (snd r)) 1 101%N = Some (0, 0) /\
-  resolve_name (mkCfg true false []) (fst (snd r)) 1 102%N = Some (2, 0) /\
+  resolve_name (mkCfg true false [] false) (fst (snd r)) 1 101%N = Some (0, 0) /\
+  resolve_name (mkCfg true false [] false) (fst (snd r)) 1 102%N = Some (2, 0) /\
   allm (fst (snd r)) = [(0, 1); (1, 0); (2, 2)] /\ reads (fst (snd r)) = [0; 2].
 Proof.
   cbn zeta. split; [apply (ml_load_stable _ _ 1 (init_state [], [])), MStable_init|]. vm_compute. repeat split; reflexivity.
 Qed.
 Print Assumptions C17_identity_several_languages_witness.
+
+(* NAMES DEFINED TWICE IN ONE FILE.  The search stops at the first model (own, imports in order, builtins) that has
+   the name.  With PlainName inside (cunique) a name that this model defines more than once is refused - the load
+   fails with 'name ... is not unique' reported for the referencing file; with FQN or RREL inside the FIRST element
+   of that name is taken. *)
+Theorem C17_plainname_duplicate_refused : forall c s x n ns t i,
+  cunique c = true -> resolve_name c s x n = Some (t, i) -> dup_in s n t = true -> resolve_refs c s x (n :: ns) = None.
+Proof. exact resolve_refs_duplicate_refused. Qed.
+Print Assumptions C17_plainname_duplicate_refused.
+
+Theorem C17_first_element_taken : forall c s x n t i,
+  resolve_name c s x n = Some (t, i) ->
+  exists fc, cont_of t s = Some fc /\ nth_error (felems fc) i = Some n /\ forall j, j < i -> nth_error (felems fc) j <> Some n.
+Proof. exact resolve_name_first_occurrence. Qed.
+Print Assumptions C17_first_element_taken.
+
+Theorem C17_unique_or_fqn_resolves : forall c s x n ns tg,
+  (cunique c = false \/ dup_in s n (fst tg) = false) -> resolve_name c s x n = Some tg ->
+  resolve_refs c s x (n :: ns) = option_map (cons (Some tg)) (resolve_refs c s x ns).
+Proof. exact resolve_refs_first_taken. Qed.
+Print Assumptions C17_unique_or_fqn_resolves.
+
+(* b defines e101 twice: FQN resolves a's reference to the first one, PlainName refuses the load (error in file 0) *)
+Example C17_duplicates_witness :
+  let fs := [mkFile [[1]] [100%N] [101%N] false false false; mkFile [] [101%N; 102%N; 101%N] [] false false false] in
+  fst (load_main fs (init_cfg_u false false false []) 0 (init_state [])) = inr 0 /\
+  dget 0 (targets (snd (load_main fs (init_cfg_u false false false []) 0 (init_state [])))) = Some [Some (1, 0)] /\
+  fst (load_main fs (init_cfg_u true false false []) 0 (init_state [])) = inl (EUnres 0).
+Proof. vm_compute. repeat split; reflexivity. Qed.
+Print Assumptions C17_duplicates_witness.
